@@ -138,7 +138,7 @@ static void exec(const std::string &line) {
     g_now = origin; memset(claimUntil, 0, sizeof claimUntil);
     N->SetDeviceCount(nDev);
     for (int i = 0; i < nDev; i++) N->SetDeviceInformation(1000 + 7 * i, 130 + i, 25, 2000 + i, 4, i);
-    N->SetMode((tNMEA2000::tN2kMode)mode, 20);
+    N->SetMode((tNMEA2000::tN2kMode)mode, w.size() > 6 ? (uint8_t)atoi(w[6].c_str()) : 20);
     N->EnableForward(false);
     N->SetN2kCANSendFrameBufSize(qsize);
     if (settle0) openAndSettle(*N, 700);
@@ -205,6 +205,7 @@ static void exec(const std::string &line) {
     bool unencodable = pgn == 0 || (pdu1 && (pgn & 0xff) != 0) || (esrc > 251 && pgn != 60928UL);
     bool claiming = devOk && g_now < claimUntil[di];             // the oracle's own view: 250 ms after a `claim` op
     bool claimEdge = devOk && g_now == claimUntil[di] && claimUntil[di] != 0;   // boundary instant: either timer build may differ by 1 ms
+    if (d >= 0 && devOk && esrc > 251 && pgn != 60928UL && (ret || produced)) C.fail("C04:null-address-sends", "device %d at address %u sent pgn %lu (ret=%d frames=%ld)", di, esrc, pgn, (int)ret, produced);
     if (unencodable && (ret || produced)) C.fail("C01:refusal", "unencodable message pgn=%lu src=%u accepted (ret=%d frames=%ld)", pgn, esrc, (int)ret, produced);
     else if (mode == 0 && (ret || produced)) C.fail("C04:listen-only-sends", "ret=%d frames=%ld", (int)ret, produced);
     else if (claiming && pgn != 60928UL && (ret || produced)) C.fail("C04:send-while-claiming", "dev %d pgn %lu ret=%d frames=%ld", di, pgn, (int)ret, produced);
@@ -295,7 +296,9 @@ static void randomCase(Rng &R, const char *flavor) {
   unsigned qsize = R.chance(1, 8) ? 40 : (unsigned)R.range(0, 7); int devs = R.chance(1, 2) ? 1 : (int)R.range(1, 9);
   int md = R.chance(1, 6) ? (int)R.below(5) : (R.chance(1, 2) ? 1 : 2);
   uint64_t origin = R.chance(1, 3) ? 0xFFFFFFFFULL - R.below(3000) : (R.chance(1, 2) ? R.below(100000) : 0x7FFFFFFFULL - R.below(2000));
-  char b[160]; snprintf(b, sizeof b, "reset %s %u %d %d %llu", flavor, qsize, md, devs, (unsigned long long)origin); exec(b);
+  char b[160]; snprintf(b, sizeof b, "reset %s %u %d %d %llu", flavor, qsize, md, devs, (unsigned long long)origin);
+  if (R.chance(1, 6)) snprintf(b, sizeof b, "reset %s %u %d %d %llu %d", flavor, qsize, md, devs, (unsigned long long)origin, 254 - (int)R.range(1, devs + 1));   // some devices above 251 / at the null address
+  exec(b);
   if (R.chance(1, 2)) { std::string l = "fplist1"; int n = (int)R.range(1, 4); for (int i = 0; i < n; i++) l += " " + std::to_string(R.chance(1, 2) ? 65300 + R.below(5) : genPGN(R) | 0xF000); exec(l); }
   if (R.chance(1, 10)) { std::string l = "fplist0"; int n = (int)R.range(1, 3); for (int i = 0; i < n; i++) l += " " + std::to_string(SOME_FP[R.below(10)]); exec(l); }
   std::vector<unsigned long> favourite;
